@@ -28,6 +28,8 @@ def run(name):
             r = subprocess.run(['/verif/tools/mutrun.sh', f's{slot}', f'{d}/patch.diff', p], capture_output=True, text=True)
             lines = r.stdout.strip().split('\n')
             out[p] = {"exit": r.returncode, "lines": [l.strip()[:500] for l in lines if not re.match(r'C\d\d quick', l) and 'KNOWN-FINDING' not in l][:8]}
+        if len(props) < 18 and os.path.exists(f'{d}/result.json'):
+            out = {**json.load(open(f'{d}/result.json')).get('checks', {}), **out}
         res = {"own_suite_passes_with_patch": suite_ok, "checks": out, "alarms": [p for p, v in out.items() if v["exit"] != 0]}
         json.dump(res, open(f'{d}/result.json', 'w'), indent=1)
         print(name, 'suite_ok=%s' % suite_ok, 'alarms=%s' % res['alarms'], flush=True)
